@@ -241,7 +241,20 @@ static int item_pos (MIR_module_t m, MIR_item_t item) {
   return -1;
 }
 
-static int64_t call_lfunc (MIR_item_t f, int64_t x) { return ((int64_t (*) (int64_t)) f->addr) (x); }
+/* engine `regen`: the function is generated and called first, then prepared and run by the interpreter
+   (the lref cells must then hold what the LAST preparation needs) */
+static MIR_context_t call_ctx;
+static int interp_after_gen_p;
+static int64_t call_lfunc (MIR_item_t f, int64_t x) {
+  if (interp_after_gen_p) {
+    MIR_val_t r, a;
+    a.i = x;
+    r.i = 0;
+    MIR_interp_arr (call_ctx, f, &r, 1, &a);
+    return r.i;
+  }
+  return ((int64_t (*) (int64_t)) f->addr) (x);
+}
 
 /* is the lref of line i on the list of its function (built by link_module_lrefs at load)?  Only
    listed lrefs are ever written by the engines. */
@@ -269,7 +282,9 @@ static void run_case (const char *id, const char *engine) {
   MIR_context_t ctx;
   MIR_module_t m;
   int gen_p = strcmp (engine, "interp") != 0;
+  int regen_p = strcmp (engine, "regen") == 0;
 
+  interp_after_gen_p = 0;
   printf ("case %s\n", id);
   n_arecs = 0;
   ctx = MIR_init2 (&h_alloc, NULL);
@@ -298,6 +313,13 @@ static void run_case (const char *id, const char *engine) {
   /* make every lfunc ready for execution (interp and lazy gen prepare on first call) */
   for (int i = 0; i < nlines; i++)
     if (is_kind (i, "lfunc") && call_lfunc (lines[i].item, 0) != -1) printf ("lfunc %d wrong result\n", i);
+  if (regen_p) {
+    call_ctx = ctx;
+    interp_after_gen_p = 1;
+    gen_p = 0; /* units of label differences are now the interpreter's */
+    for (int i = 0; i < nlines; i++)
+      if (is_kind (i, "lfunc") && call_lfunc (lines[i].item, 0) != -1) printf ("lfunc %d wrong result (interp after gen)\n", i);
+  }
   for (int i = 0; i < nlines; i++) {
     cline_t *l = &lines[i];
     MIR_item_t item = l->item, head;
@@ -363,7 +385,7 @@ static void run_case (const char *id, const char *engine) {
   }
   printf ("end\n");
   fflush (stdout);
-  if (gen_p) MIR_gen_finish (ctx);
+  if (gen_p || regen_p) MIR_gen_finish (ctx);
   MIR_finish (ctx);
 }
 
